@@ -2,6 +2,8 @@
 \* everything, two-letter payload alphabet, hostile bytes over four letters chosen on delivery
 \* (reads of at most 3 bytes so that a step has few successors), environment faults
 CONSTANTS
+  FixExtractOverflow = TRUE
+  FixFramerError = TRUE
   Lfls = {1, 2, 3, 4, 5, 6, 7, 8}
   HostLfls = {1, 2, 3, 4, 5, 6, 7, 8}
   Endians = {TRUE, FALSE}
